@@ -178,6 +178,7 @@ type g2KeyLeaf struct {
 	v    ssa.Value
 	env  *g2Env
 	site *ssa.BasicBlock // block that selects this alternative (return block / phi predecessor); nil if unknown
+	to   *ssa.BasicBlock // for a phi alternative: the block of the phi (the alternative is chosen by the edge site -> to)
 }
 
 type g2Wrap struct {
@@ -286,10 +287,10 @@ func (w *g2Wrap) collectFn(v ssa.Value, env *g2Env, seen map[ssa.Value]bool) boo
 }
 
 // keyLeaves enumerates the alternatives of a lookup key.
-func (w *g2Wrap) keyLeaves(v ssa.Value, env *g2Env, site *ssa.BasicBlock, seen map[ssa.Value]bool, out *[]g2KeyLeaf) {
+func (w *g2Wrap) keyLeaves(v ssa.Value, env *g2Env, site, to *ssa.BasicBlock, seen map[ssa.Value]bool, out *[]g2KeyLeaf) {
 	rv, renv := g2Resolve(v, env)
 	if renv != env {
-		site = nil
+		site, to = nil, nil
 	}
 	v, env = rv, renv
 	if seen[v] {
@@ -299,7 +300,7 @@ func (w *g2Wrap) keyLeaves(v ssa.Value, env *g2Env, site *ssa.BasicBlock, seen m
 	switch x := v.(type) {
 	case *ssa.Phi:
 		for i, e := range x.Edges {
-			w.keyLeaves(e, env, x.Block().Preds[i], seen, out)
+			w.keyLeaves(e, env, x.Block().Preds[i], x.Block(), seen, out)
 		}
 		return
 	case *ssa.Call:
@@ -307,13 +308,13 @@ func (w *g2Wrap) keyLeaves(v ssa.Value, env *g2Env, site *ssa.BasicBlock, seen m
 			if rets := g2Returns(h); len(rets) > 0 {
 				henv := g2Enter(x, h, env)
 				for _, rt := range rets {
-					w.keyLeaves(rt.Results[0], henv, rt.Block(), map[ssa.Value]bool{}, out)
+					w.keyLeaves(rt.Results[0], henv, rt.Block(), nil, map[ssa.Value]bool{}, out)
 				}
 				return
 			}
 		}
 	}
-	*out = append(*out, g2KeyLeaf{v, env, site})
+	*out = append(*out, g2KeyLeaf{v, env, site, to})
 }
 
 // nilTest: the If at the end of b compares the encoding field of the receiver with nil; returns the successor taken
@@ -370,11 +371,28 @@ func (w *g2Wrap) guarded(b *ssa.BasicBlock, env *g2Env, wantNil bool) bool {
 	return false
 }
 
+// guardedEdge: the control-flow edge from -> to is itself the nil (wantNil) resp. non-nil branch of a nil test of the
+// encoding field at the end of `from` ("key := <default>; if p.<enc> != nil { key = *p.<enc> }": the default reaches the
+// phi directly from the testing block).
+func (w *g2Wrap) guardedEdge(from, to *ssa.BasicBlock, env *g2Env, wantNil bool) bool {
+	if from == nil || to == nil {
+		return false
+	}
+	n, nn := w.nilTest(from, env)
+	if n == nil || n == nn {
+		return false
+	}
+	if wantNil {
+		return n == to
+	}
+	return nn == to
+}
+
 // checkKey decides whether a schema-keyed lookup key is "the encoding field of the receiver, or the utf-8 key when
 // the field is absent": StrPtrOrElse(p.<enc>, utf-8), or the same spelled out with a nil test.
 func (w *g2Wrap) checkKey(lk g2Lookup) (bool, string) {
 	var leaves []g2KeyLeaf
-	w.keyLeaves(lk.l.Index, lk.env, nil, map[ssa.Value]bool{}, &leaves)
+	w.keyLeaves(lk.l.Index, lk.env, nil, nil, map[ssa.Value]bool{}, &leaves)
 	derefs, consts := 0, 0
 	for _, lf := range leaves {
 		switch x := lf.v.(type) {
@@ -408,7 +426,7 @@ func (w *g2Wrap) checkKey(lk g2Lookup) (bool, string) {
 			if !w.isIdentityConst(x) {
 				return false, "an absent encoding does not default to the utf-8 pass-through entry"
 			}
-			if lf.env == nil || !w.guarded(lf.site, lf.env, true) {
+			if lf.env == nil || !(w.guarded(lf.site, lf.env, true) || w.guardedEdge(lf.site, lf.to, lf.env, true)) {
 				return false, "the default key is not selected exactly when the encoding field is absent"
 			}
 			consts++
